@@ -815,6 +815,57 @@ def run(tier="quick", seed=0):
                     lst.sort(key=lambda t: t[:2])
                     del lst[MAX_PER_CLAUSE:]
 
+    # ---- layer R2: a DEFINITION that is refused (identifier already used in that scope, position overlapping / outside the bit field)
+    #      defines nothing: no field's tags, and no tag's mask, differ from before the refused call
+    for L in (16, 32):
+        for refusal in ("duplicate", "overlap", "outside"):
+            for tagged in ("routing", "other"):
+                ev += 1
+                distinct.add(("R2", L, refusal, tagged))
+                calls, why = [], None
+                try:
+                    bf = bitfield_mod.BitField(L)
+                    bf.add_field("sel", length=4, start_at=L - 4)
+                    bf.add_field("x", length=8, start_at=0, tags="routing")
+                    scope = bf(sel=0)
+                    scope.add_field("c", length=2, start_at=8)
+                    calls += ["bf = BitField(%d)" % L, "bf.add_field('sel', length=4, start_at=%d)" % (L - 4), "bf.add_field('x', length=8, start_at=0, tags='routing')",
+                              "bf(sel=0).add_field('c', length=2, start_at=8)"]
+
+                    def snapshot():
+                        tags = dict((f, sorted(bf.get_tags(f))) for f in ("sel", "x"))
+                        tags["c"] = sorted(scope.get_tags("c"))
+                        k = bf(sel=0, x=1, c=1)
+                        masks = {}
+                        for t in ("routing", "other"):
+                            try:
+                                masks[t] = k.get_mask(tag=t)
+                            except Exception as e:      # noqa
+                                masks[t] = type(e).__name__
+                        return tags, masks
+                    before = snapshot()
+                    kw = {"duplicate": dict(identifier="c", length=3, start_at=10), "overlap": dict(identifier="d", length=4, start_at=6),
+                          "outside": dict(identifier="d", length=4, start_at=L - 2)}[refusal]
+                    try:
+                        scope.add_field(kw["identifier"], length=kw["length"], start_at=kw["start_at"], tags=tagged)
+                        refused = False
+                    except ValueError:
+                        refused = True
+                    calls.append("bf(sel=0).add_field(%r, length=%d, start_at=%d, tags=%r)   # %s" % (kw["identifier"], kw["length"], kw["start_at"], tagged, "refused" if refused else "ACCEPTED"))
+                    if not refused:
+                        why = "a definition that %s was accepted" % {"duplicate": "re-uses an identifier of its scope", "overlap": "overlaps a field present with it", "outside": "leaves the bit field"}[refusal]
+                    else:
+                        after = snapshot()
+                        if after != before:
+                            why = "after the refused definition the tags / tag masks are %r; before it they were %r" % (after, before)
+                except Exception as e:      # noqa
+                    why = "%s: %s" % (type(e).__name__, e)
+                if why:
+                    lst = found.setdefault("refused_call_leaves_its_mark", [])
+                    lst.append(((2, L, 1, 0), ev, {"id": "R2_%d" % ev, "clause": "refused_call_leaves_its_mark", "why": why, "inputs": {"calls": calls}}))
+                    lst.sort(key=lambda t: t[:2])
+                    del lst[MAX_PER_CLAUSE:]
+
     viol = []
     order = sorted(found, key=lambda c: found[c][0][:2])
     for rank in range(MAX_PER_CLAUSE):      # the smallest input of every clause first, then the second smallest
